@@ -155,7 +155,12 @@ bool OsslEndpoint::create(OsslShared *sh, bool resume) {
     else {
         SSL_set_connect_state(ssl);
         if (resume && sh->saved) { SSL_set_session(ssl, sh->saved); fp.add(1); }
-        drive();     // emits the ClientHello
+        if (resume && sh->saved && !early_payload.empty() && SSL_SESSION_get_max_early_data(sh->saved) > 0) {
+            size_t written = 0; ERR_clear_error();
+            early_write_rc = SSL_write_early_data(ssl, early_payload.data(), early_payload.size(), &written);   // ClientHello + 0-RTT record
+            fp.add(0xe0 + (uint64_t) (early_write_rc == 1));
+        }
+        drive();     // emits the ClientHello (or continues after the early data)
     }
     return true;
 }
@@ -218,6 +223,7 @@ int OsslEndpoint::app_send(const unsigned char *p, size_t n) {
     return r;
 }
 int OsslEndpoint::app_close() { if (!ssl_) { return -1; } ERR_clear_error(); return SSL_shutdown(S); }
+int OsslEndpoint::early_status() { return ssl_ ? SSL_get_early_data_status(S) : 0; }
 bool OsslEndpoint::is_resumed() { return ssl_ && SSL_session_reused(S) == 1; }
 int OsslEndpoint::negotiated_version() { return ssl_ ? SSL_version(S) : 0; }
 std::string OsslEndpoint::negotiated_cipher() { const SSL_CIPHER *c = ssl_ ? SSL_get_current_cipher(S) : nullptr; return c ? SSL_CIPHER_get_name(c) : ""; }
